@@ -65,15 +65,17 @@ def model_check(ctx, cov):
             raise ToolError(f"vacuous model run {cfg}: actions never taken: {missing}")
         states += r.distinct
         trans += r.generated
-    for v in ("naive-nobits", "no-modulo", "no-cut"):
-        r = tlc.run_tlc("MCLayout", f"mc/Layout_bad_{v}.cfg", workers=4, timeout=600, coverage=False,
-                        name=f"c04.bad.{v}")
-        if r.ok or r.violated != "PlacedWellFormed":
-            raise ToolError(f"broken placement rule '{v}' was NOT rejected by WellFormed: the invariant is vacuous\n"
-                            + r.out[-1500:])
-        m = [ln for ln in r.out.splitlines() if "MODEL-FAIL" in ln]
-        runs.append({"cfg": f"mc/Layout_bad_{v}.cfg", "expected_violation": r.violated,
-                     "conjunct": m[0] if m else ""})
+    def bad(v):
+        return v, tlc.run_tlc("MCLayout", f"mc/Layout_bad_{v}.cfg", workers=2, timeout=600, coverage=False, name=f"c04.bad.{v}")
+
+    with ThreadPoolExecutor(max_workers=3) as ex:
+        for v, r in ex.map(bad, ("naive-nobits", "no-modulo", "no-cut")):
+            if r.ok or r.violated != "PlacedWellFormed":
+                raise ToolError(f"broken placement rule '{v}' was NOT rejected by WellFormed: the invariant is vacuous\n"
+                                + r.out[-1500:])
+            m = [ln for ln in r.out.splitlines() if "MODEL-FAIL" in ln]
+            runs.append({"cfg": f"mc/Layout_bad_{v}.cfg", "expected_violation": r.violated,
+                         "conjunct": m[0] if m else ""})
     cov["states"] = states
     cov["transitions"] = trans
     cov["tlc_runs"] = runs
@@ -227,6 +229,13 @@ def gen_scenario(rng, i, tier_quick):
     elif fixed_ok and mode < 0.62:
         scn["script"] = gen_script(rng, secs, customs, far_ok=(kind == "static"))
         scn["tags"].append("script")
+        # a script address inside the range the automatic layout uses for what the script does not
+        # mention (headers, .interp, .dynsym, .plt.got, ... at 0x400000 + a few pages): same input
+        # class as the deliberate --section-start collision above
+        page = next((int(o.split("=")[1], 16) for o in opts if o.startswith("max-page-size=")), 0x1000)
+        m = re.search(r"\. = (0x[0-9a-f]+);", scn["script"])
+        if m and int(m.group(1), 16) < 0x400000 + 4 * page:
+            scn["tags"].append("secstart-collides-image")
     elif kind in ("shared", "pie") and mode < 0.5:
         scn["script"] = gen_script(rng, secs, customs, absolute=False)
         scn["tags"].append("script-rel")
@@ -341,9 +350,9 @@ def failure_key(scn, f, o):
                     "with -T script and --no-gc-sections the input objects' .symtab/.strtab/.rela.* sections are copied "
                     f"into the output (an extra SHT_SYMTAB with sh_link=0): {text}")
     if "secstart-collides-image" in scn["tags"] and conj in COLLIDE_CONJUNCTS:
-        return ("secstart-collides-image:overlap",
-                "--section-start address inside the default image is accepted and the headers / other segments "
-                f"overlap it: {text}")
+        return ("fixed-address-collides-image:overlap",
+                "a --section-start / script address inside the range of the automatically placed part of the image is "
+                f"accepted and segments overlap: {text}")
     return f"{conj}{clauses}:{scenario_class(scn)}", text
 
 
